@@ -34,6 +34,7 @@ def check(c: Check):
     clause_c(c)
     clause_d(c)
     clause_e(c)
+    clause_f(c)
     from .common import sweep_records
     sweep_records(c, 'C12-rec', ['exactly_lib.tcfs', 'exactly_lib.type_val_deps.types.path'], floor=5)
 
@@ -113,6 +114,59 @@ def clause_a(c: Check):
                      'option name %s is used for two relativities' % long, RPO)
             names.add(long)
     c.floor('C12-a', 'distinct relativity option names', len(names), 6)
+    # builtin directory symbols: the symbol named as the directory of a relativity is the root of that relativity
+    bs = 'exactly_lib.cli_default.program_modes.test_case.builtin_symbols.test_case_dir_symbols'
+    syms = fo.fold_path(bs + ':ALL')
+    c.require(isinstance(syms, (tuple, list)) and all(isinstance(x, Record) for x in syms),
+              'C12-a: the builtin directory symbols (%s:ALL) are not folded' % bs)
+    dir_name_of = {}
+    for m, info in om.items():
+        if isinstance(info, Record):
+            dn = fo.attr_of_value(info, 'directory_name')
+            res = fo.record_attr(info, 'root_resolver')
+            if isinstance(dn, str) and isinstance(res, Record):
+                dir_name_of[m.name] = (dn, res)
+    c.require(len(dir_name_of) >= 5, 'C12-a: directory names of the relativities not folded (%d)' % len(dir_name_of))
+    seen_names = []
+    for x in syms:
+        name = fo.record_attr(x, 'name')
+        sdv = fo.record_attr(x, 'sdv')
+        ddv = next((v for v in sdv.args.values() if isinstance(v, Record)), None) if isinstance(sdv, Record) else None
+        res = ddv.args.get('rel_root_resolver') if isinstance(ddv, Record) else None
+        suffix = ddv.args.get('path_suffix') if isinstance(ddv, Record) else None
+        c.require(isinstance(name, str) and isinstance(res, Record),
+                  'C12-a: builtin directory symbol not understood: %r' % (x,))
+        seen_names.append(name)
+        want = [rel for rel, (dn, r) in dir_name_of.items() if dn == name]
+        got = [rel for rel, (dn, r) in dir_name_of.items() if r == res]
+        c.expect(len(want) == 1 and got == want and isinstance(suffix, Record) and suffix.cls.name == 'PathPartDdvAsNothing',
+                 'C12-a', 'builtin-dir-symbol/' + name,
+                 'the builtin symbol %s is the root directory of %s (expected: of %s, the relativity whose directory '
+                 'has that name), suffix %r' % (name, got, want, suffix), bs)
+    c.expect(sorted(seen_names) == sorted(dn for dn, _ in dir_name_of.values()), 'C12-a', 'builtin-dir-symbols/complete',
+             'builtin directory symbols %s; directories with a name %s' % (
+                 sorted(seen_names), sorted(dn for dn, _ in dir_name_of.values())), bs)
+    # the same names as environment variables / replaced strings: name -> directory of that relativity
+    ts = 'exactly_lib.tcfs.tcds_symbols'
+    n_env = 0
+    for fname in ('symbols_rel_hds', 'set_at_setup_main', 'set_at_before_assert_main', 'set_at_assert'):
+        f = ix.try_lookup(ts + ':' + fname)
+        if not isinstance(f, FuncDef):
+            continue
+        r = single_return_expr(f)
+        if not isinstance(r, ast.Dict):
+            continue
+        par = f.positional_params()[0].arg
+        for k, v in zip(r.keys, r.values):
+            kn = fo.fold(f.module, f, k)
+            # str(<param>.<getter>)
+            g = v.args[0] if isinstance(v, ast.Call) and unparse(v.func) == 'str' and len(v.args) == 1 else v
+            getter = g.attr if isinstance(g, ast.Attribute) and isinstance(g.value, ast.Name) and g.value.id == par else None
+            want = [GETTER[rel].split('.')[-1] for rel, (dn, _) in dir_name_of.items() if dn == kn and rel in GETTER]
+            n_env += 1
+            c.expect(getter is not None and want == [getter], 'C12-a', 'env-var-of-directory/%s' % kn,
+                     '%s gives the variable %s the value %s (expected the directory %s)' % (fname, kn, unparse(v), want), f.loc())
+    c.floor('C12-a', 'directory environment variables', n_env, 4)
     # path values are stateless: resolved values are never cached on the object
     for m in (ix.module(PDD), ix.module('exactly_lib.type_val_deps.types.path.impl.path_base')):
         for cls in m.all_classes:
@@ -531,3 +585,36 @@ def _mentions_value(v, target, depth=0, trace=None) -> bool:
             if isinstance(y, Sym) and _mentions_value(y, target, depth + 1, trace):
                 return True
     return False
+
+
+# ---------------------------------------------------------------- f
+VALUE_PREFIX = 'value_'
+
+
+def clause_f(c: Check):
+    """EFF: a directory-dependent value is a function of the directories it is given and - for -rel-cd - of the
+    current directory at the time of the call. The values of the generic layer (`exactly_lib.type_val_deps`: the
+    dependency-variant base classes, path / string / list values) are held by constant symbol-dependent values and
+    by the builtin symbols, i.e. for the whole process: across the `cd`s of a case and across the cases of a suite.
+    So no `value_*` method of these classes may store in the object anything it computes from its arguments (mutation
+    summaries over resolved calls and local aliases, rules/purity.py). Lazy initialisation by a method without
+    parameters (the stored value is a function of the object alone) is accepted."""
+    from .purity import Purity
+    ix = c.ix
+    pu = Purity(ix)
+    n = 0
+    for name in ix.all_module_names():
+        if not name.startswith('exactly_lib.type_val_deps.'):
+            continue
+        for k in ix.module(name).all_classes:
+            for mname, f in k.methods.items():
+                if not mname.startswith(VALUE_PREFIX) or not f.self_name or util.is_abstract_body(f):
+                    continue
+                n += 1
+                changed = pu.self_mutations(f, ignore_paramless=True)
+                c.expect(not changed, 'C12-f', 'value-function-keeps-no-state/%s.%s' % (k.key, mname),
+                         '%s.%s stores %s in the object from what it computes for its arguments: the value is held by '
+                         'constant values and builtin symbols for the whole process, so a path relative to the '
+                         'current directory (or to the directories of another case) is given as it was at the first '
+                         'use' % (k.name, mname, ', '.join('self.' + a for a in changed)), f.loc())
+    c.floor('C12-f', 'value functions of directory-dependent values analysed', n, 45)
